@@ -15,6 +15,17 @@ CLAIMED = {
         "round-trip hypothesis (the server never builds them).",
    technique="Coq proof over executable model + regenerated tables + differential correspondence (vm_compute vs Rust codec)",
    design="7 (C20)"),
+ "C19": dict(
+   text="Theorems in Props/C19.v, for all values: chunked text comparison = lexicographic total order (C19_blob_order); varint "
+        "decode(encode v)=v for every i64 with the code's shifts and masks (C19_varint_roundtrip); equality is an equivalence, agrees "
+        "with the hashed bytes and with the ordering, integers up to 2^53 compare by mathematical value, store/load and same-kind "
+        "cast are the identity (C19_outside_known); the full-strength law is refuted on the faithful model (C19_refuted: NaN, "
+        "signed zeros, integers above 2^53 - recorded known findings whose witnesses are replayed on the real code every run).",
+   note="Trusted: Coq kernel; IEEE-754 conversions/comparisons are modelled on bit patterns and compared with the hardware on a "
+        "boundary grid (full cross product) plus random values; SipHash collisions ignored; int/double -> FLOAT rounding casts not "
+        "modelled; mixed integer/float comparison is covered by the exact-arithmetic oracle on the grid, not by a theorem.",
+   technique="Coq proof (refutation + theorem outside syntactic known classes) over executable model + differential correspondence",
+   design="7 (C19)"),
 }
 NOT_YET = "not claimed yet: model and proofs under construction in this session (see DESIGN.md section 10, build order)"
 
